@@ -1,8 +1,12 @@
 package main
 
 import (
+	"fmt"
+	"go/constant"
 	"go/token"
 	"go/types"
+	"os"
+	"strings"
 
 	"golang.org/x/tools/go/ssa"
 )
@@ -117,6 +121,16 @@ func ruleAddCodecs(c *Ctx) {
 					n++
 					okc := false
 					why := "only RegisterCodec / RegisterCodecWithTag may be called on the instance"
+					if fname == "null.AddCodecs" && (cn == "plenc.RegisterCodec" || cn == "plenc.RegisterCodecWithTag") {
+						c.Oblige("X.addcodecs", false, x.Pos(), fname, "call of "+cn,
+							"AddCodecs registers on the instance it is given: a package-level RegisterCodec puts the codec on the default instance instead (the given instance lacks it, the default one gains it)", nil)
+						continue
+					}
+					if fname == "null.AddCodecs" && cal.Signature.Recv() != nil && len(f.Params) > 0 && len(x.Common().Args) > 0 && x.Common().Args[0] != ssa.Value(f.Params[0]) {
+						c.Oblige("X.addcodecs", false, x.Pos(), fname, "call of "+cn+" on another instance",
+							"AddCodecs registers on the instance it is given", nil)
+						continue
+					}
 					switch cn {
 					case "plenc.Plenc.RegisterCodec", "plenc.Plenc.RegisterCodecWithTag", "plenc.RegisterCodec", "plenc.RegisterCodecWithTag":
 						// the registered type is a named type that is not a basic type of the language
@@ -759,4 +773,548 @@ func ruleKeySelf(c *Ctx) {
 func isStringType(t types.Type) bool {
 	b, ok := t.Underlying().(*types.Basic)
 	return ok && b.Kind() == types.String
+}
+
+// ---------------------------------------------------------------------------
+// structDescriptorSSA: the element part of T.desc-struct on SSA, so that it
+// does not matter whether the elements are written in place, built in a local
+// and stored, collected in a local slice, or filled in two passes:
+//
+//	elem:  some destination X receives fields[i].codec.Descriptor()
+//	index: X.Index (same destination, same i) receives fields[i].index
+//	name:  X.Name receives fields[i].name
+func structDescriptorSSA(p *Prog) map[string]bool {
+	got := map[string]bool{}
+	f := p.ssaFunc("plenccodec.StructCodec.Descriptor")
+	if f == nil || len(f.Params) == 0 {
+		return got
+	}
+	recv := ssa.Value(f.Params[0])
+	fieldsBase := func(v ssa.Value) bool {
+		u, ok := v.(*ssa.UnOp)
+		if !ok || u.Op != token.MUL {
+			return false
+		}
+		fa, ok := u.X.(*ssa.FieldAddr)
+		return ok && fa.X == recv && fieldName(fa) == "fields"
+	}
+	// the address (or a local copy) of fields[i]
+	var elemRef func(v ssa.Value) (ssa.Value, bool)
+	elemRef = func(v ssa.Value) (ssa.Value, bool) {
+		switch x := v.(type) {
+		case *ssa.IndexAddr:
+			if fieldsBase(x.X) {
+				return x.Index, true
+			}
+		case *ssa.Alloc:
+			var idx ssa.Value
+			n := 0
+			for _, r := range *x.Referrers() {
+				if st, ok := r.(*ssa.Store); ok && st.Addr == ssa.Value(x) {
+					n++
+					if ld, ok := st.Val.(*ssa.UnOp); ok && ld.Op == token.MUL {
+						if i, ok := elemRef(ld.X); ok {
+							idx = i
+						}
+					}
+				}
+			}
+			if n == 1 && idx != nil {
+				return idx, true
+			}
+		}
+		return nil, false
+	}
+	elemField := func(v ssa.Value, name string) (ssa.Value, bool) {
+		switch x := v.(type) {
+		case *ssa.UnOp:
+			if x.Op == token.MUL {
+				if fa, ok := x.X.(*ssa.FieldAddr); ok && fieldName(fa) == name {
+					return elemRef(fa.X)
+				}
+			}
+		case *ssa.Field:
+			if st, ok := x.X.Type().Underlying().(*types.Struct); ok && x.Field < st.NumFields() && st.Field(x.Field).Name() == name {
+				if ld, ok := x.X.(*ssa.UnOp); ok && ld.Op == token.MUL {
+					return elemRef(ld.X)
+				}
+			}
+		}
+		return nil, false
+	}
+	// canonical name of a Descriptor destination
+	var destKey func(v ssa.Value) string
+	destKey = func(v ssa.Value) string {
+		switch x := v.(type) {
+		case *ssa.Alloc:
+			return fmt.Sprintf("alloc:%p", x)
+		case *ssa.IndexAddr:
+			base := ""
+			switch s := x.X.(type) {
+			case *ssa.UnOp:
+				if fa, ok := s.X.(*ssa.FieldAddr); ok && s.Op == token.MUL {
+					base = fmt.Sprintf("field:%p.%s", fa.X, fieldName(fa))
+				}
+			default:
+				base = fmt.Sprintf("val:%p", s)
+			}
+			return fmt.Sprintf("%s[%p]", base, x.Index)
+		}
+		return ""
+	}
+	type rec struct {
+		key string
+		idx ssa.Value
+	}
+	var elems []rec
+	for _, b := range f.Blocks {
+		for _, in := range b.Instrs {
+			st, ok := in.(*ssa.Store)
+			if !ok {
+				continue
+			}
+			call, ok := st.Val.(*ssa.Call)
+			if !ok || !call.Common().IsInvoke() || call.Common().Method.Name() != "Descriptor" {
+				continue
+			}
+			if i, ok := elemField(call.Common().Value, "codec"); ok {
+				if k := destKey(st.Addr); k != "" {
+					elems = append(elems, rec{k, i})
+					got["elem"] = true
+					// i counts up by one from the start: the loop index of a range / index loop
+					step := func(v ssa.Value) bool {
+						bo, ok := v.(*ssa.BinOp)
+						if !ok || bo.Op != token.ADD {
+							return false
+						}
+						k, ok := bo.Y.(*ssa.Const)
+						_, isPhi := bo.X.(*ssa.Phi)
+						return ok && isPhi && k.Value != nil && k.Value.ExactString() == "1"
+					}
+					if step(i) {
+						got["ranges"] = true
+					}
+					if ph, ok := i.(*ssa.Phi); ok {
+						for _, e := range ph.Edges {
+							if step(e) {
+								got["ranges"] = true
+							}
+						}
+					}
+				}
+			}
+		}
+	}
+	for _, b := range f.Blocks {
+		for _, in := range b.Instrs {
+			st, ok := in.(*ssa.Store)
+			if !ok {
+				continue
+			}
+			fa, ok := st.Addr.(*ssa.FieldAddr)
+			if !ok {
+				continue
+			}
+			fld := fieldName(fa)
+			if fld == "Elements" {
+				// the element slice has one slot per field: make([]Descriptor, len(c.fields))
+				if ms, ok := st.Val.(*ssa.MakeSlice); ok {
+					if call, ok := ms.Len.(*ssa.Call); ok {
+						if bi, ok := call.Common().Value.(*ssa.Builtin); ok && bi.Name() == "len" && fieldsBase(call.Common().Args[0]) {
+							got["len"] = true
+						}
+					}
+				}
+			}
+			src := map[string]string{"Index": "index", "Name": "name"}[fld]
+			if src == "" {
+				continue
+			}
+			i, ok := elemField(st.Val, src)
+			if !ok {
+				continue
+			}
+			k := destKey(fa.X)
+			for _, e := range elems {
+				if e.key == k && e.idx == i {
+					got[src] = true
+				}
+			}
+		}
+	}
+	return got
+}
+
+// ---------------------------------------------------------------------------
+// Round 8: T.default-init, T.tag-exact, G.private.all, G.write.trunc
+
+// ruleDefaultInit: the package-level default instance is a default-configured
+// instance and nothing more - package plenc's init (and any other function that
+// is not one of the package-level delegates) calls RegisterDefaultCodecs on it
+// and nothing else, and stores to none of its fields.
+func ruleDefaultInit(c *Ctx) {
+	p := c.P
+	pk := p.SSAPkg[modPath]
+	if pk == nil {
+		c.Oblige("T.default-init", false, token.NoPos, "plenc", "package", "not found", nil)
+		return
+	}
+	g, _ := pk.Members["defaultPlenc"].(*ssa.Global)
+	if g == nil {
+		c.Oblige("T.default-init", false, token.NoPos, "plenc.defaultPlenc", "variable", "not found", nil)
+		return
+	}
+	n := 0
+	for _, f := range p.moduleFuncs() {
+		if f.Pkg != pk || !strings.HasPrefix(f.Name(), "init") {
+			continue
+		}
+		name := ssaFuncName(f)
+		for _, b := range f.Blocks {
+			for _, in := range b.Instrs {
+				switch x := in.(type) {
+				case *ssa.Call:
+					cal := x.Common().StaticCallee()
+					if cal == nil || len(x.Common().Args) == 0 || x.Common().Args[0] != ssa.Value(g) {
+						continue
+					}
+					n++
+					c.Oblige("T.default-init", cal.Name() == "RegisterDefaultCodecs", x.Pos(), name, "init calls "+cal.Name()+" on the default instance",
+						"the package-level functions behave exactly like a default-configured instance: init may only call RegisterDefaultCodecs on defaultPlenc - a codec registered or an option set there exists for the package-level functions and for no other instance", nil)
+				case *ssa.Store:
+					if fa, ok := x.Addr.(*ssa.FieldAddr); ok && fa.X == ssa.Value(g) {
+						n++
+						c.Oblige("T.default-init", false, x.Pos(), name, "init stores to defaultPlenc."+fieldName(fa),
+							"the default instance must be configured like a fresh Plenc after RegisterDefaultCodecs: no option may be set on it", nil)
+					}
+				}
+			}
+		}
+	}
+	if n == 0 {
+		c.Oblige("T.default-init", false, token.NoPos, "plenc.init", "RegisterDefaultCodecs on the default instance", "no call found in an init function", nil)
+	}
+	c.Floor("T.default-init", 1)
+}
+
+// ruleTagExact: the option of a field's plenc tag reaches the registry lookup
+// exactly as written: the tag argument of CodecForTypeRegistry in
+// BuildStructCodec is the text after the comma (a slice of the tag, or the
+// "after" of strings.Cut) or the constant "" - no case folding or trimming,
+// which would make differently spelled registrations collide or unreachable.
+func ruleTagExact(c *Ctx) {
+	p := c.P
+	name := "plenccodec.BuildStructCodec"
+	f := p.ssaFunc(name)
+	if f == nil {
+		c.Oblige("T.tag-exact", false, token.NoPos, name, "function", "not found", nil)
+		return
+	}
+	var exact func(v ssa.Value, depth int) bool
+	exact = func(v ssa.Value, depth int) bool {
+		if depth > 8 {
+			return false
+		}
+		if k, ok := v.(*ssa.Const); ok {
+			return k.Value != nil
+		}
+		if tagGetResult(v, "plenc", 0) {
+			return true
+		}
+		switch x := v.(type) {
+		case *ssa.Phi:
+			for _, e := range x.Edges {
+				if !exact(e, depth+1) {
+					return false
+				}
+			}
+			return len(x.Edges) > 0
+		case *ssa.Slice:
+			return exact(x.X, depth+1)
+		case *ssa.Extract:
+			if call, ok := x.Tuple.(*ssa.Call); ok {
+				if cal := call.Common().StaticCallee(); cal != nil && cal.String() == "strings.Cut" {
+					return exact(call.Common().Args[0], depth+1)
+				}
+			}
+		}
+		return false
+	}
+	n := 0
+	for _, b := range f.Blocks {
+		for _, in := range b.Instrs {
+			call, ok := in.(*ssa.Call)
+			if !ok || !call.Common().IsInvoke() || call.Common().Method.Name() != "CodecForTypeRegistry" || len(call.Common().Args) != 3 {
+				continue
+			}
+			n++
+			c.Oblige("T.tag-exact", exact(call.Common().Args[2], 0), call.Pos(), name, "the tag option is looked up as written",
+				"the registry is keyed by (type, tag): the option handed to the lookup must be the text of the plenc tag after the comma (or \"\"), not a normalised form of it - lower-casing or trimming makes a codec registered under \"unixMicros\" unreachable, or silently picks another registration", nil)
+		}
+	}
+	if n == 0 {
+		c.Oblige("T.tag-exact", false, f.Pos(), name, "field codec lookup", "no CodecForTypeRegistry call found", nil)
+	}
+	c.Floor("T.tag-exact", 1)
+}
+
+// ruleTagRound8: plenctag - every name of a declaration counts for "exported"
+// (G.private.all), and the file is written truncated (G.write.trunc).
+func ruleTagRound8(c *Ctx) {
+	p := c.P
+	// G.private.all
+	allNames := false
+	sawExport := false
+	for _, f := range plenctagFuncs(p) {
+		loops := loopsOf(f)
+		for _, b := range f.Blocks {
+			for _, in := range b.Instrs {
+				call, ok := in.(*ssa.Call)
+				if !ok {
+					continue
+				}
+				cal := call.Common().StaticCallee()
+				if cal == nil || (cal.String() != "go/ast.IsExported" && cal.String() != "go/token.IsExported") {
+					continue
+				}
+				sawExport = true
+				// the argument is (element of f.Names).Name with the element chosen by a loop
+				u, ok := call.Common().Args[0].(*ssa.UnOp)
+				if !ok {
+					continue
+				}
+				fa, ok := u.X.(*ssa.FieldAddr)
+				if !ok || fieldName(fa) != "Name" {
+					continue
+				}
+				var elem ssa.Value = fa.X
+				if ld, ok := elem.(*ssa.UnOp); ok {
+					elem = ld.X
+				}
+				ia, ok := elem.(*ssa.IndexAddr)
+				if !ok {
+					continue
+				}
+				if ld, ok := ia.X.(*ssa.UnOp); ok {
+					if nfa, ok := ld.X.(*ssa.FieldAddr); !ok || fieldName(nfa) != "Names" {
+						continue
+					}
+				} else {
+					continue
+				}
+				if _, isConst := ia.Index.(*ssa.Const); isConst {
+					continue
+				}
+				for _, body := range loops {
+					if body[b] {
+						allNames = true
+					}
+				}
+			}
+		}
+	}
+	c.Oblige("G.private.all", sawExport && allNames, token.NoPos, "cmd/plenctag", "every name of a declaration is tested with IsExported",
+		"\"a, B int\" declares an exported field: a declaration is private only if all of its names are - deciding by the first name leaves B untagged (plenc then refuses the struct)", nil)
+	c.Floor("G.private.all", 1)
+	// G.write.trunc
+	n := 0
+	for _, f := range plenctagFuncs(p) {
+		for _, b := range f.Blocks {
+			for _, in := range b.Instrs {
+				call, ok := in.(*ssa.Call)
+				if !ok {
+					continue
+				}
+				cal := call.Common().StaticCallee()
+				if cal == nil {
+					continue
+				}
+				switch cal.String() {
+				case "os.WriteFile", "os.Create", "io/ioutil.WriteFile":
+					n++
+					c.Oblige("G.write.trunc", true, call.Pos(), ssaFuncName(f), cal.String()+" replaces the file", "the rewritten source replaces the old contents", nil)
+				case "os.OpenFile":
+					n++
+					good := false
+					if k, ok := call.Common().Args[1].(*ssa.Const); ok && k.Value != nil {
+						if v, ok := constant.Int64Val(k.Value); ok && v&int64(os.O_TRUNC) != 0 {
+							good = true
+						}
+					}
+					c.Oblige("G.write.trunc", good, call.Pos(), ssaFuncName(f), "os.OpenFile with O_TRUNC",
+						"the output is usually not the length of the input: opening the file for writing without O_TRUNC leaves the old tail behind whenever the result is shorter (the file no longer parses)", nil)
+				}
+			}
+		}
+	}
+	if n == 0 {
+		c.Oblige("G.write.trunc", false, token.NoPos, "cmd/plenctag", "the file is written", "no os.WriteFile / os.OpenFile / os.Create found", nil)
+	}
+	c.Floor("G.write.trunc", 1)
+}
+
+// ---------------------------------------------------------------------------
+// X.delegate.nonempty: a wrapper hands every element / pointee to the wrapped
+// codec's Read, also when its body is empty - the wrapped codec may have work
+// to do for an empty body (PointerWrapper allocates the pointee, the null
+// codecs set Valid): a "nothing to decode" shortcut on len(data) turns a
+// present empty value into an absent one.
+
+func ruleDelegateNonEmpty(c *Ctx) {
+	p := c.P
+	n := 0
+	for _, ct := range p.Codecs {
+		hasUnderlying := false
+		if st, ok := ct.Named.Underlying().(*types.Struct); ok {
+			var walk func(st *types.Struct, depth int)
+			walk = func(st *types.Struct, depth int) {
+				for i := 0; i < st.NumFields(); i++ {
+					fl := st.Field(i)
+					if fl.Name() == "Underlying" {
+						hasUnderlying = true
+					}
+					if fl.Embedded() && depth < 2 {
+						if s2, ok := fl.Type().Underlying().(*types.Struct); ok {
+							walk(s2, depth+1)
+						}
+					}
+				}
+			}
+			walk(st, 0)
+		}
+		if !hasUnderlying {
+			continue
+		}
+		fns := []*ssa.Function{p.SSA.FuncValue(ct.Methods["Read"].Fn)}
+		// unexported helpers of the same receiver called from Read
+		for i := 0; i < len(fns) && i < 4; i++ {
+			f := fns[i]
+			if f == nil {
+				continue
+			}
+			for _, b := range f.Blocks {
+				for _, in := range b.Instrs {
+					if call, ok := in.(*ssa.Call); ok {
+						if cal := call.Common().StaticCallee(); cal != nil && cal.Pkg != nil && inModule(cal.Pkg.Pkg) && recvTypeName(cal) == recvTypeName(f) && len(cal.Blocks) > 0 {
+							dup := false
+							for _, g := range fns {
+								if g == cal {
+									dup = true
+								}
+							}
+							if !dup {
+								fns = append(fns, cal)
+							}
+						}
+					}
+				}
+			}
+		}
+		for _, f := range fns {
+			if f == nil {
+				continue
+			}
+			name := ssaFuncName(f)
+			for _, b := range f.Blocks {
+				for _, in := range b.Instrs {
+					call, ok := in.(*ssa.Call)
+					if !ok || !isCodecInvoke(call) || call.Common().Method.Name() != "Read" {
+						continue
+					}
+					n++
+					bad := ""
+					conds, _ := controllingConds(b)
+					for _, cd := range conds {
+						bo, ok := cd.(*ssa.BinOp)
+						if !ok {
+							continue
+						}
+						for _, pair := range [][2]ssa.Value{{bo.X, bo.Y}, {bo.Y, bo.X}} {
+							lc, ok := pair[0].(*ssa.Call)
+							if !ok {
+								continue
+							}
+							bi, ok := lc.Common().Value.(*ssa.Builtin)
+							if !ok || bi.Name() != "len" || !isByteSlice(lc.Common().Args[0].Type()) {
+								continue
+							}
+							if k, ok := pair[1].(*ssa.Const); ok && k.Value != nil && k.Value.ExactString() == "0" {
+								// the very slice handed to Read
+								if lc.Common().Args[0] == call.Common().Args[0] {
+									bad = "len(data) compared with 0"
+								}
+							}
+						}
+					}
+					c.Oblige("X.delegate.nonempty", bad == "", call.Pos(), name, "the wrapped Read is called for an empty body too",
+						"an element or pointee that is present with an empty body must still be read by its codec (pointer allocation, Valid flag): the call must not be guarded by the length of the very bytes it is given"+map[bool]string{true: "", false: " (" + bad + ")"}[bad == ""], nil)
+				}
+			}
+		}
+	}
+	c.Floor("X.delegate.nonempty", 4)
+}
+
+// ---------------------------------------------------------------------------
+// J.end: JSONOutput.end() removes the separator after the last value of a
+// container only when the last two bytes *are* that separator. A remembered
+// offset cannot tell "no separator written yet" from "separator at offset 0".
+
+func ruleJSONEnd(c *Ctx) {
+	p := c.P
+	name := "plenccodec.JSONOutput.end"
+	f := p.ssaFunc(name)
+	if f == nil {
+		c.Oblige("J.end", false, token.NoPos, name, "function", "not found", nil)
+		return
+	}
+	n := 0
+	for _, b := range f.Blocks {
+		for _, in := range b.Instrs {
+			// the truncation: a store to j.data of a re-slice of j.data
+			st, ok := in.(*ssa.Store)
+			if !ok {
+				continue
+			}
+			fa, ok := st.Addr.(*ssa.FieldAddr)
+			if !ok || fieldName(fa) != "data" {
+				continue
+			}
+			if _, isSlice := st.Val.(*ssa.Slice); !isSlice {
+				continue
+			}
+			n++
+			comma, nl := false, false
+			conds, truths := controllingConds(b)
+			for i, cd := range conds {
+				bo, ok := cd.(*ssa.BinOp)
+				if !ok || bo.Op != token.EQL || !truths[i] {
+					continue
+				}
+				for _, pair := range [][2]ssa.Value{{bo.X, bo.Y}, {bo.Y, bo.X}} {
+					ld, ok := pair[0].(*ssa.UnOp)
+					if !ok || ld.Op != token.MUL {
+						continue
+					}
+					if _, isIA := ld.X.(*ssa.IndexAddr); !isIA {
+						continue
+					}
+					if k, ok := pair[1].(*ssa.Const); ok && k.Value != nil {
+						switch k.Value.ExactString() {
+						case "44":
+							comma = true
+						case "10":
+							nl = true
+						}
+					}
+				}
+			}
+			c.Oblige("J.end", comma && nl, st.Pos(), name, "the trailing separator is removed only when the last two bytes are \",\\n\"",
+				"closing a container cuts the separator punctuate wrote after the last value; the cut must be decided by the bytes themselves (data[l-2] == ',' && data[l-1] == '\\n'): an empty container has none, and a remembered offset with zero value 0 matches an empty container at the top level", nil)
+		}
+	}
+	if n == 0 {
+		c.Oblige("J.end", false, f.Pos(), name, "separator removal", "no truncation of j.data found", nil)
+	}
+	c.Floor("J.end", 1)
 }
